@@ -126,14 +126,16 @@ def _add_group_md(w, ev, slot):
                 (ev.get('c', 0) >> (2 + ax)) & 1:
             gm = {'tree': ('newick', '((a:0.1,b:0.2)\u00e9:0.3,c);'),
                   'relation': ('txt', 'x y\tz')}
+            if (ev.get('c', 0) >> 5) & 1:
+                gm = {'pair': ('txt', 'ab')}
             slot.real.add_group_metadata(dict(gm), axis=AXNAME[ax])
             w.stats['c01.group_md_added'] += 1
 
 
-def _group_md_text(t):
+def _group_md_text(t, loaded_form=False):
     """{axis: {name: text}} as it must read back, or False if the table holds
     group metadata in the loaded (text-only) form, which the writer cannot
-    take"""
+    take; with loaded_form=True the texts of that form"""
     out = []
     for ax in (0, 1):
         gm = t.group_metadata(AXNAME[ax])
@@ -141,7 +143,11 @@ def _group_md_text(t):
             out.append(None)
             continue
         if not all(isinstance(v, tuple) and len(v) == 2 for v in gm.values()):
-            return False
+            if not loaded_form:
+                return False
+            out.append({k: (v if isinstance(v, str) else v[1])
+                        for k, v in gm.items()})
+            continue
         out.append({k: v[1] for k, v in gm.items()})
     return out
 
@@ -187,8 +193,18 @@ def _cmp_loaded(w, loaded, ref, meta, oracle, what, subset=False):
         want_txt = meta['group_md'][ax]
         got_txt = None if not gm else dict(gm)
         if got_txt != want_txt:
+            # known: a two-character payload held in the loaded form is
+            # taken for a (datatype, text) pair by the writer
             w.fail(oracle, '%s: %s group metadata %r, written %r'
-                   % (what, AXNAME[ax], got_txt, want_txt))
+                   % (what, AXNAME[ax], got_txt, want_txt),
+                   finding='C01.reloaded_group_md_unwritable',
+                   trigger=bool(meta.get('reloaded_gm')) and
+                   bool(want_txt) and bool(got_txt) and
+                   set(got_txt) == set(want_txt) and
+                   all(got_txt[k] == want_txt[k] or
+                       (len(want_txt[k]) == 2 and
+                        got_txt[k] == want_txt[k][1])
+                       for k in want_txt))
 
 
 @probe('c01_roundtrip')
@@ -201,18 +217,34 @@ def c01_roundtrip(w, ev, slot):
         return 'skip:md_grammar'
     _add_group_md(w, ev, slot)
     gmt = _group_md_text(slot.real)
-    if gmt is False:
-        return 'skip:loaded_group_md'
+    reloaded_gm = gmt is False
+    if reloaded_gm:
+        # history: loaded from a file that carries group metadata (the
+        # loader keeps {name: text}), possibly changed in place, written
+        # again
+        gmt = _group_md_text(slot.real, loaded_form=True)
+        w.stats['c01.reloaded_group_md'] += 1
     path = store.new_path(w, '.biom')
-    w.case('c01.roundtrip', 'write', slot, a=ev.get('a', 0) % 16)
-    src = with_caller_zero(w, slot, ev.get('salt', 0) // 7)
+    w.case('c01.roundtrip', 'write', slot, a=ev.get('a', 0) % 16,
+           regm=reloaded_gm)
+    src = slot if reloaded_gm else \
+        with_caller_zero(w, slot, ev.get('salt', 0) // 7)
     if src is not slot:
         gmt = [None, None]
     try:
         meta = _write_h5(w, ev, src, path)
     except Exception as e:  # noqa
-        w.fail('c01.write_raised', 'writing raised %r' % (e,))
+        w.fail('c01.write_raised', 'writing raised %r%s'
+               % (e, ' (group metadata as loaded from HDF5: %r)' % (gmt,)
+                  if reloaded_gm else ''),
+               finding='C01.reloaded_group_md_unwritable',
+               trigger=reloaded_gm and isinstance(e, ValueError) and
+               'unpack' in str(e))
+        if os.path.exists(path):
+            os.unlink(path)
+        return 'c01:known'
     meta['group_md'] = gmt
+    meta['reloaded_gm'] = reloaded_gm
     w.expect_unchanged(slot, 'c01.source_changed', 'to_hdf5')
     ref = src.ref
     loaded_tables = []
@@ -242,7 +274,7 @@ def c01_roundtrip(w, ev, slot):
         _cmp_loaded(w, t2, ref, meta, 'c01.roundtrip', what)
         loaded_tables.append(t2)
     os.unlink(path)
-    if loaded_tables and ev.get('c', 0) % 2:
+    if loaded_tables and (ev.get('c', 0) % 2 or (ev.get('c', 0) >> 6) & 1):
         t2 = loaded_tables[ev.get('b', 0) % len(loaded_tables)]
         # the reloaded table's own observation becomes its model (it was
         # just verified field by field; lists/tuples, int/float widths are
